@@ -39,8 +39,10 @@ const (
 	kSPtr dynKind = iota
 	kFunc
 	kIface
-	kObj  // *T for a package struct T with exactly ONE modelled field (capSet): the value of that field
-	kPure // an interface whose methods are pure functions of their arguments (sasl.Client)
+	kObj    // *T for a package struct T with exactly ONE modelled field (capSet): the value of that field
+	kPure   // an interface whose methods are pure functions of their arguments (sasl.Client)
+	kHandle // *T for a package struct T that is not modelled (state's *nick): an abstract reference
+	kRefMap // map[K]*T with K a string or a handle: an abstract store with get (and set when T is value-modelled)
 )
 
 type dynType struct {
@@ -55,6 +57,8 @@ type dynType struct {
 	ftys   []gtyp
 	all    []string // kSPtr: every field name, for the comment
 	rest   bool     // kSPtr: the struct has fields that are not modelled: one abstract component for them
+	keyTy  gtyp     // kRefMap
+	valTy  gtyp     // kRefMap: a handle (get only) or a value-modelled pointer (get and set)
 }
 
 const tDyn gtyp = 100
@@ -94,7 +98,7 @@ func valueStruct(t types.Type) (*types.Named, *types.Struct, bool) {
 		return nil, nil, false
 	}
 	n, ok := p.Elem().(*types.Named)
-	if !ok || !pkgIs(n.Obj().Pkg(), "state") {
+	if !ok || !pkgIs(n.Obj().Pkg(), "state") || !n.Obj().Exported() {
 		return nil, nil, false
 	}
 	st, ok := n.Underlying().(*types.Struct)
@@ -184,6 +188,28 @@ func goTypeDyn(t types.Type) gtyp {
 			return addDyn("pure:"+n.String(), dynType{kind: kPure, coq: "option go_sasl_Client", zero: "None", named: n})
 		}
 	}
+	// *T for an unexported struct of package state (nick, channel): an abstract reference
+	if pt, ok := t.(*types.Pointer); ok {
+		if n, ok := pt.Elem().(*types.Named); ok && pkgIs(n.Obj().Pkg(), "state") && !n.Obj().Exported() {
+			if _, ok := n.Underlying().(*types.Struct); ok {
+				base := "go_state_" + n.Obj().Name() + "_ref"
+				return addDyn("handle:"+n.String(), dynType{kind: kHandle, coq: "option " + base, zero: "None", named: n, base: base})
+			}
+		}
+	}
+	// map[string]*T / map[*T]*U of package state: an abstract store
+	if mt, ok := t.Underlying().(*types.Map); ok {
+		kt, vt := goType(mt.Key()), goType(mt.Elem())
+		kd, vd := kt.dyn(), vt.dyn()
+		if (kt == tStr || (kd != nil && kd.kind == kHandle)) && vd != nil && (vd.kind == kHandle || vd.kind == kSPtr) {
+			kn := "string"
+			if kd != nil {
+				kn = kd.named.Obj().Name()
+			}
+			base := "go_map_" + kn + "_" + vd.named.Obj().Name()
+			return addDyn("refmap:"+t.String(), dynType{kind: kRefMap, coq: base, zero: "BAD", base: base, keyTy: kt, valTy: vt})
+		}
+	}
 	if n, ok := t.(*types.Named); ok && pkgIs(n.Obj().Pkg(), "state") && n.Obj().Name() == "Tracker" {
 		if _, ok := n.Underlying().(*types.Interface); ok {
 			return addDyn("iface:"+n.String(), dynType{kind: kIface, coq: "option ST", zero: "None", named: n})
@@ -271,7 +297,50 @@ func (f *ftrans) needType(t gtyp) {
 		f.needTracker(d)
 	case kPure:
 		f.needSasl(d)
+	case kHandle:
+		if !f.emitted[d.base] {
+			f.emitted[d.base] = true
+			f.openSection()
+			*f.extra = append(*f.extra, fmt.Sprintf("(* *%s (package state, not modelled): an abstract reference; nil = None *)\nContext {%s : Type}.\n", d.named.Obj().Name(), d.base))
+		}
+	case kRefMap:
+		f.needType(d.keyTy)
+		f.needType(d.valTy)
+		if !f.emitted[d.base] {
+			f.emitted[d.base] = true
+			f.openSection()
+			vd := d.valTy.dyn()
+			txt := fmt.Sprintf("(* a Go map to pointers, as an abstract store: m[k] (nil when k is missing)")
+			decl := fmt.Sprintf("Context {%s : Type}.\nVariable %s_get : %s -> %s -> %s.\n", d.base, d.base, d.base, d.keyTy.coq(), d.valTy.coq())
+			if vd.kind == kSPtr {
+				txt += ", and the write through that pointer"
+				decl += fmt.Sprintf("Variable %s_set : %s -> %s -> %s -> %s.\n", d.base, d.base, d.keyTy.coq(), vd.base, d.base)
+			}
+			*f.extra = append(*f.extra, txt+" *)\n"+decl)
+		}
 	}
+}
+
+// a local variable bound to m[k] for a store m of value-modelled objects: a write p.F = v through
+// it is also a write to the store at k
+type refInfo struct {
+	m   *gvar
+	key string
+}
+
+// m[k] on an abstract store
+func (f *ftrans) refMapGet(x *ast.IndexExpr) (ex, bool) {
+	ty := goType(f.info.TypeOf(x.X))
+	d := ty.dyn()
+	if d == nil || d.kind != kRefMap {
+		return ex{}, false
+	}
+	f.needType(ty)
+	m, k := f.expr(x.X), f.expr(x.Index)
+	if k.ty != d.keyTy {
+		failf("map index of type %s", k.ty.coq())
+	}
+	return ex{pre: cat(m.pre, k.pre), t: d.base + "_get " + arg(m) + " " + arg(k), p: 1, ty: d.valTy}, true
 }
 
 // sasl.Client: Start() (mech string, ir []byte, err error); Next(challenge []byte) (response
